@@ -12,6 +12,8 @@ W2 = [(1.2, -0.5), (1.2, 0.5), (1.8, 0.5), (1.8, -0.5)]
 # a limiter-like section that cuts into the scrape-off layer away from the targets
 # a V-shaped floor: targets slanted strongly relative to the boundary-cell size, so that some contours fall short of the wall
 VFLOOR = [(1.2, -0.4), (1.5, -0.68), (1.8, -0.4), (1.8, 0.5), (1.2, 0.5)]
+# a rectangle whose lower corners are chamfered at exactly 45 degrees (|dR| == |dZ| in floating point: all coordinates are dyadic)
+CHAMFER = [(1.1875 + 0.15625, -0.5), (1.8125 - 0.15625, -0.5), (1.8125, -0.5 + 0.15625), (1.8125, 0.5), (1.1875, 0.5), (1.1875, -0.5 + 0.15625)]
 LIMITER = [(1.25, -0.45), (1.25, 0.45), (1.75, 0.45), (1.75, 0.12), (1.668, 0.12), (1.668, -0.06), (1.75, -0.06), (1.75, -0.45)]
 
 
@@ -92,6 +94,10 @@ def specs_for(tier):
          ("limiter-section orth lsn", gridlab.tokamak_spec("lsn", options={"psinorm_sol": 1.2}, wall=LIMITER, extract_rz=ex)),
          ("v-floor nonorth lsn", gridlab.tokamak_spec("lsn", options={"orthogonal": False, "nx_pf": 2, "psinorm_sol": 1.25, "psinorm_pf": 0.7,
                                                                         "target_all_poloidal_spacing_length": 0.1}, wall=VFLOOR, extract_rz=ex))]
+    # far-SOL cells of both legs stick out through 45-degree chamfers
+    S.append(("chamfer45 orth lsn", gridlab.tokamak_spec("lsn", options={"psinorm_sol": 1.3}, wall=CHAMFER, extract_rz=ex)))
+    # a grid on which no two options that could be confused coincide (see gridlab.odd_spec)
+    S.append(("odd orth lsn", gridlab.odd_spec("lsn", True, extract_rz=ex)))
     if tier == "thorough":
         S += [("slanted-cw nonorth cdn", gridlab.tokamak_spec("cdn", options={"orthogonal": False}, wall=SLANT, extract_rz=ex)),
               ("rect-fine nonorth cdn", gridlab.tokamak_spec("cdn", options={"orthogonal": False}, wall=subdivide(RECT, 7), extract_rz=ex)),
@@ -101,6 +107,8 @@ def specs_for(tier):
               ("slanted-fine orth usn", gridlab.tokamak_spec("usn", wall=subdivide(SLANT, 5), extract_rz=ex)),
               ("rect nonorth cdn Nfine80", gridlab.tokamak_spec("cdn", options={"orthogonal": False, "finecontour_Nfine": 80}, wall=RECT, extract_rz=ex)),
               ("slanted-ccw nonorth cdn Nfine80", gridlab.tokamak_spec("cdn", options={"orthogonal": False, "finecontour_Nfine": 80}, wall=SLANT[::-1], extract_rz=ex))]
+    if tier == "thorough":
+        S.append(("odd nonorth cdn", gridlab.odd_spec("cdn", False, extract_rz=ex)))
     return S
 
 
@@ -118,7 +126,7 @@ def oracle(res, tier):
             res.extra.setdefault("refused", []).append([t, str(o["error"][:2])[:200], "positions judged" if wi is not None else "before positions"])
         if wi is None:
             continue
-        win = [tuple(map(float, p)) for p in sp["wall"]]
+        win = [(float(a), float(b) + float(sp.get("z_offset", 0.0))) for a, b in sp["wall"]]
         cw = wi["closed_wall"]
         v = o.get("vars")
         # --- wall output
@@ -188,6 +196,8 @@ def oracle(res, tier):
                             res.violation("mask-range:%s" % t, "%s region %s: penalty_mask[%d,%d]=%r outside [0,1]" % (t, r["name"], i, jj, float(pm[i, jj])), {"spec": sp})
                         continue
                     o1, o2 = not inside(p1, stored), not inside(p2, stored)
+                    mc = res.extra.setdefault("mask_cells", {}).setdefault(t, {"both_faces_outside": 0, "cut_by_wall": 0, "both_faces_inside": 0})
+                    mc["both_faces_outside" if (o1 and o2) else "both_faces_inside" if not (o1 or o2) else "cut_by_wall"] += 1
                     if o1 and o2:
                         exp = 1.0
                     elif not o1 and not o2:
